@@ -13,8 +13,8 @@ ASSUME = ["only executable mappings are compared (data such as the GOT is not ex
 
 
 def run(tier, seed):
-    n = 16 * 3000 if tier == "thorough" else 320
-    r, obs = _hist.run_hist("C03", tier, seed, "c03", 320, 16 * 3000, RULE, ASSUME)
+    n = 16 * 4000 if tier == "thorough" else 4000
+    r, obs = _hist.run_hist("C03", tier, seed, "c03", 4000, 16 * 4000, RULE, ASSUME)
     r.void_if_unobserved(obs.get("snapshots", 0) > 0 and obs.get("bytes_compared", 0) > 0, "snapshot monitor observed nothing")
     return r.finish({"scenario": "hist", "mon": "c03", "n": n, "batch": 1})
 
